@@ -35,6 +35,8 @@ def gen_history(r, c, nops):
         st = dict(stability=r.choice([None, None, f2b(1e-5), f2b(0.0), f2b(1e-16)]), debug=r.chance(0.3), metadata=r.chance(0.5))   # 0 and 1e-16: the test mostly rejects
         if k < 2:
             draws = [r.u64() for _ in range(dim)]
+            if r.chance(0.25):
+                draws[r.below(dim)] = r.below(2048)        # a generator word below 2^11 is the uniform number 0.0 exactly
             ops.append(dict(kind="rng", draws=draws, edge_data=c["edge_data"], **st))
         else:
             ops.append(dict(kind="point", scalar=("inst" if r.chance(0.2) else "f64"), point=r.choice(pts), edge_data=c["edge_data"], **st))
